@@ -741,8 +741,8 @@ Definition ok_val {A} (f : A -> val) (r : res A) : val := match r with Ok a => V
      [ outcome (Ok + equality with the tree Validate returned | Err + stage label);
        path of the signature found + equality of the tree findSignature left behind with the real one;
        canonical SignedInfo bytes; canonical referenced bytes; were all canonicaliser questions answered by the table ] *)
-Definition dsig_obs (t : oracle_tables) (store : list cert) (now : instant) (root : node) (exp_tree exp_mut : option node) : val :=
-  let canon := canon_table (ot_canon t) in
+Definition dsig_obs_with (canon : canon_alg -> node -> option string)
+           (t : oracle_tables) (store : list cert) (now : instant) (root : node) (exp_tree exp_mut : option node) : val :=
   let reparse := reparse_table (ot_reparse t) in
   let out := match validate_res canon (digest_table (ot_digest t)) (sig_table (ot_sig t)) (cert_table (ot_certs t)) reparse store now root with
              | Ok v => VC "Ok" [VB (opt_node_eqb exp_tree v)]
@@ -761,6 +761,10 @@ Definition dsig_obs (t : oracle_tables) (store : list cert) (now : instant) (roo
            | Ok q => canon_known (ot_canon t) (snd q) (fst q)
            | Err _ => true
            end) ].
+
+(* with the canonicalisers answered by the table computed with the real library (Canon.v: [dsig_obs_model] answers them
+   with the model instead) *)
+Definition dsig_obs (t : oracle_tables) := dsig_obs_with (canon_table (ot_canon t)) t.
 
 (* the hand-written schema rendered for comparison with the struct tags the harness reads by reflection *)
 Definition ftype_str : ftype -> string :=
